@@ -501,27 +501,71 @@ func TestC27(t *testing.T) {
 	apis := []string{"raw", "marshal", "protobuf"}
 	faults := allFaults()
 
+	// Enumeration order = decreasing information per case, so that a run cut by the time
+	// budget has covered the most telling slice: single faults on the raw API, then the
+	// crash-then-rewrite slice, then the same single faults through the encoding wrappers,
+	// and (thorough) all remaining ordered pairs last.
 	var cases []c27case
-	for _, api := range apis {
+	seen := map[string]bool{}
+	add := func(c c27case) {
+		if !seen[c.key()] {
+			seen[c.key()] = true
+			cases = append(cases, c)
+		}
+	}
+	singlesOf := func(api string, olds, news []content) {
 		for _, old := range olds {
 			for _, nw := range news {
 				for _, f := range faults {
 					if f.Kind == "createtemp-nodir" && old != absent {
 						continue // a missing directory cannot hold an old file
 					}
-					cases = append(cases, c27case{Old: old, Steps: []writeStep{{api, nw, f}}})
+					add(c27case{Old: old, Steps: []writeStep{{api, nw, f}}})
 				}
 			}
 		}
 	}
-	singles := len(cases)
+	var groupStarts []int
+	groupStarts = append(groupStarts, len(cases))
+	singlesOf("raw", olds, news)
+	// Crash-then-rewrite slice: a write of a LONG content dies after its data reached the
+	// temporary file (or part of it) and before the rename; then a fresh process writes a
+	// shorter / equally long / longer / empty content to the same target without any fault.
+	groupStarts = append(groupStarts, len(cases))
+	long := 100 << 10
+	var stale []fault
+	for _, p := range []string{"atomic.written", "atomic.closed", "atomic.chmodded", "renameat"} {
+		stale = append(stale, fault{Kind: "crash", Point: p})
+	}
+	stale = append(stale, fault{Kind: "write-sigxfsz"})
+	for _, api := range []string{"raw", "protobuf"} {
+		for _, old := range []content{absent, mkContent("old", 10)} {
+			for _, f1 := range stale {
+				for _, second := range []content{mkContent("third", 10), mkContent("third", long), mkContent("third", 2*long), mkContent("third", 0)} {
+					add(c27case{Old: old, Steps: []writeStep{{api, mkContent("new", long), f1}, {api, second, fault{Kind: "none"}}}})
+				}
+			}
+		}
+	}
+	slice := len(cases) - groupStarts[1]
+	groupStarts = append(groupStarts, len(cases))
+	singlesOf("protobuf", olds, news)
+	groupStarts = append(groupStarts, len(cases))
 	if vr.Thorough() {
-		// Pairs: a first faulty write, then a second write by a fresh process in the same
-		// directory (leftovers of the first must not break atomicity of the second).
-		thirds := []content{mkContent("third", 0), mkContent("third", 100<<10)}
+		singlesOf("marshal", olds, news)
+	} else {
+		// MarshalAndSave is a two-line wrapper around WriteFileAtomic: a reduced grid in quick.
+		singlesOf("marshal", []content{absent, mkContent("old", 10)}, []content{mkContent("new", 10), mkContent("new", long)})
+	}
+	singles := len(cases) - slice
+	if vr.Thorough() {
+		// All ordered pairs: a first faulty write, then a second write under every fault by a
+		// fresh process in the same directory (leftovers of the first must not break the second).
+		groupStarts = append(groupStarts, len(cases))
+		thirds := []content{mkContent("third", 0), mkContent("third", 10), mkContent("third", long)}
 		for _, api := range apis {
 			for _, old := range []content{absent, mkContent("old", 10)} {
-				for _, nw := range []content{mkContent("new", 10), mkContent("new", 100<<10)} {
+				for _, nw := range []content{mkContent("new", 10), mkContent("new", long)} {
 					for _, f1 := range faults {
 						if f1.Kind == "none" || f1.Kind == "createtemp-nodir" {
 							continue
@@ -531,7 +575,7 @@ func TestC27(t *testing.T) {
 								if f2.Kind == "createtemp-nodir" {
 									continue
 								}
-								cases = append(cases, c27case{Old: old, Steps: []writeStep{{api, nw, f1}, {api, third, f2}}})
+								add(c27case{Old: old, Steps: []writeStep{{api, nw, f1}, {api, third, f2}}})
 							}
 						}
 					}
@@ -540,7 +584,8 @@ func TestC27(t *testing.T) {
 		}
 	}
 	r.Rule(fmt.Sprintf("every API in %v x old content in %v x new content in %v x fault in {none, SIGKILL of the writing process at each of %v, SIGXFSZ kill in the middle of write(2), "+
-		"renameat failing with EIO/EXDEV, write(2) failing with EFBIG after a partial write, CreateTemp failing with EMFILE / ENOENT}; thorough adds larger contents and every ordered pair "+
+		"renameat failing with EIO/EXDEV, write(2) failing with EFBIG after a partial write, CreateTemp failing with EMFILE / ENOENT} (marshal API on a reduced grid in quick); plus the crash-then-rewrite slice: "+
+		"a 100 KiB write killed at written/closed/chmodded/before-rename/inside write(2), then a fault-free write of a shorter / equal / longer / empty content by a fresh process; thorough adds larger contents and every ordered pair "+
 		"(faulty write, then second write with every fault, fresh process, same directory). One child process per write. Non-trivial = the injected crash/failure actually happened "+
 		"(child died by the signal / call returned an error); distinct by (api, old, new, fault[, second write])", apis, olds, news, crashPoints))
 	r.Assume("process crash only: the page cache survives, power-loss torn writes are outside the property",
@@ -555,8 +600,10 @@ func TestC27(t *testing.T) {
 	var infraMsg string
 	var mu = make(chan struct{}, 1)
 	mu <- struct{}{}
-	for _, i := range []int{1, singles / 2, singles - 2, len(cases) - 1} {
-		r.Sample(cases[i])
+	for _, i := range groupStarts {
+		if i+1 < len(cases) {
+			r.Sample(cases[i+1])
+		}
 	}
 	vr.Parallel(len(cases), func(i int) {
 		if time.Now().After(deadline) {
